@@ -151,8 +151,8 @@ def campaign(chk, fam, cases, proof_ok, proof_detail, signature_of=None, label="
             small = shrink(fam, ops[: r["at"] + 1] if r["at"] < len(ops) else ops, r["kind"])
             r2 = judge(fam, small) or r
             sig = signature_of(small, r2) if signature_of else None
-            chk.violation("\n".join(small) + "\n", "%s %s: %s" % (label or fam.name, r2["kind"], r2["detail"]), signature=sig)
-            found_concrete = True
+            if chk.violation("\n".join(small) + "\n", "%s %s: %s" % (label or fam.name, r2["kind"], r2["detail"]), signature=sig):
+                found_concrete = True
             if len(chk.violations) >= 3:
                 break
         elif r["kind"] == "thm":
